@@ -210,6 +210,54 @@ func genPools(repo string) {
 		fail("checkOneProject / handleProjectEntryFileVec not found")
 	}
 	b.WriteString("/-- methods of AllProject called by the second-pass WORKER checkOneProject, in source order -/\ndef secondPassWorkerCalls : List String := " + leanStrList(workerCalls) + "\n\n")
-	b.WriteString("/-- methods of AllProject called by handleProjectEntryFileVec AFTER its receive loop (all workers have reported) -/\ndef secondPassAfterLoopCalls : List String := " + leanStrList(afterLoopCalls) + "\n\nend LuaHelper.Gen\n")
+	b.WriteString("/-- methods of AllProject called by handleProjectEntryFileVec AFTER its receive loop (all workers have reported) -/\ndef secondPassAfterLoopCalls : List String := " + leanStrList(afterLoopCalls) + "\n\n")
+	// the third pass: every function the WORKER goThirdFile calls (any callee, by its last name), and the ones the
+	// coordinator handleFiles calls inside its receive loop — recvThirdFile writes the unlocked map
+	// AnalysisThird.FileErrorMap, so it must be in the second list only
+	anyCalls := func(stmts []ast.Stmt) []string {
+		var out []string
+		for _, st := range stmts {
+			ast.Inspect(st, func(n ast.Node) bool {
+				if c, ok := n.(*ast.CallExpr); ok {
+					switch f := c.Fun.(type) {
+					case *ast.Ident:
+						out = append(out, f.Name)
+					case *ast.SelectorExpr:
+						out = append(out, f.Sel.Name)
+					}
+				}
+				return true
+			})
+		}
+		return out
+	}
+	var thirdWorker, thirdLoop []string
+	foundTW, foundTC := false, false
+	for _, fd := range p.allFuncs() {
+		if fd.Body == nil {
+			continue
+		}
+		switch fd.Name.Name {
+		case "goThirdFile":
+			foundTW = true
+			thirdWorker = anyCalls(fd.Body.List)
+		case "handleFiles":
+			for _, st := range fd.Body.List {
+				if fs, ok := st.(*ast.ForStmt); ok && strings.Contains(exprText(fs.Cond), "recvNum") {
+					foundTC = true
+					for _, c := range anyCalls(fs.Body.List) {
+						if c == "recvThirdFile" || strings.HasPrefix(c, "handle") || strings.HasPrefix(c, "Insert") {
+							thirdLoop = append(thirdLoop, c)
+						}
+					}
+				}
+			}
+		}
+	}
+	if !foundTW || !foundTC {
+		fail("goThirdFile / handleFiles receive loop not found")
+	}
+	b.WriteString("/-- every function the third-pass WORKER goThirdFile calls, in source order -/\ndef thirdPassWorkerCalls : List String := " + leanStrList(thirdWorker) + "\n\n")
+	b.WriteString("/-- result-handling calls inside the receive loop of the third-pass coordinator handleFiles -/\ndef thirdPassLoopCalls : List String := " + leanStrList(thirdLoop) + "\n\nend LuaHelper.Gen\n")
 	write("Pools.lean", b.String())
 }
